@@ -86,3 +86,13 @@ Definition lsize (o : opts) : Z * Z :=
   if is_horizontal (rotn (o_orient o)) then (o_w o, o_h o) else (o_h o, o_w o).
 
 Inductive tearing := TeOff | TeVertical | TeHV.
+
+(* words over the six public generators *)
+Inductive oop := ORot (r : rot) | OFlipH | OFlipV.
+Definition apply_oop (o : orient) (p : oop) : outcome orient :=
+  match p with ORot r => o_rotate o r | OFlipH => flip_horizontal o | OFlipV => flip_vertical o end.
+Fixpoint apply_word (o : orient) (w : list oop) : outcome orient :=
+  match w with
+  | [] => Ok o
+  | p :: w' => do o' <- apply_oop o p; apply_word o' w'
+  end.
